@@ -481,6 +481,36 @@ func totalGpossubMarkArray(r *Rng, classCount int) ([]byte, int) {
 	return totalGpossubCat(totalGpossubW(ws...), anchors), n
 }
 
+// totalGpossubHeavy estimates what a `read` line costs in the Lean driver: for a GPOS 2.2 subtable
+// whose record loop can run to the end (enough data for class1Count*class2Count records, product
+// below 65536) the larger of class1Count and the product (the model fills the made slices with
+// List.set: quadratic); 0 otherwise.
+func totalGpossubHeavy(b []byte, pos, tp int) int {
+	if pos < 0 || pos+16 > len(b) {
+		return 0
+	}
+	u16 := func(i int) int { return int(b[pos+i])<<8 | int(b[pos+i+1]) }
+	if uint16(10*tp+u16(0)) != 22 {
+		return 0
+	}
+	c1, c2 := u16(12), u16(14)
+	nr := c1 * c2
+	if nr >= 65536 {
+		return 0
+	}
+	need := 0
+	for k := 0; k < 8; k++ {
+		need += 2 * (u16(4)>>k&1 + u16(6)>>k&1)
+	}
+	if pos+16+nr*need > len(b) {
+		return 0 // the record loop fails early
+	}
+	if nr > c1 {
+		return nr
+	}
+	return c1
+}
+
 // totalGpossubTab is one structured input of the `read` op.
 type totalGpossubTab struct {
 	name string
@@ -488,7 +518,7 @@ type totalGpossubTab struct {
 	tp   int
 }
 
-func totalGpossubStructured(r *Rng) []totalGpossubTab {
+func totalGpossubStructured(r *Rng, thorough bool) []totalGpossubTab {
 	var tt []totalGpossubTab
 	add := func(name string, tp int, b []byte) { tt = append(tt, totalGpossubTab{name, b, tp}) }
 	W, cat := totalGpossubW, totalGpossubCat
@@ -560,7 +590,15 @@ func totalGpossubStructured(r *Rng) []totalGpossubTab {
 		add("21-count-max-nodata", 2, cat(W(1, 12, 0, 0, 0xffff, 20), W(1, 1, 5)))
 	}
 	// ---- 2.2: class counts 0/1/2/large
-	for _, cc := range [][2]int{{0, 0}, {0, 1}, {1, 0}, {1, 1}, {1, 2}, {2, 1}, {2, 2}, {3, 2}, {0, 0xffff}, {0xffff, 0}, {1, 0xffff},
+	// The Lean model fills made slices with List.set (quadratic in the slice length): a successful
+	// read with class1Count or class1Count*class2Count above a few thousand takes seconds in the
+	// driver (65535 rows: 40 s).  Quick tier: the same shapes with 2000 rows and ONE line with
+	// 20000 rows; thorough tier: 65535 rows (the emit filter lets two of them through).
+	big := 2000
+	if thorough {
+		big = 0xffff
+	}
+	for _, cc := range [][2]int{{0, 0}, {0, 1}, {1, 0}, {1, 1}, {1, 2}, {2, 1}, {2, 2}, {3, 2}, {0, 0xffff}, {big, 0}, {1, 0xffff},
 		{0xffff, 1}, {256, 256}, {256, 255}, {255, 257}, {0xffff, 0xffff}, {2, 0x8000}, {2, 0x7fff}, {300, 200}} {
 		nm := "22-" + strconv.Itoa(cc[0]) + "x" + strconv.Itoa(cc[1])
 		n := cc[0] * cc[1]
@@ -568,13 +606,16 @@ func totalGpossubStructured(r *Rng) []totalGpossubTab {
 			add(nm+"-full", 2, totalGpossub22Counts(cc[0], cc[1], 4, 1, 4*n))
 		}
 		add(nm+"-nodata", 2, totalGpossub22Counts(cc[0], cc[1], 4, 1, 0))
-		if n <= 3000 || (cc[0] <= 3000 && cc[1] == 0) {
+		if n <= 3000 {
 			add(nm+"-vf0", 2, totalGpossub22Counts(cc[0], cc[1], 0, 0, 0))
 			add(nm+"-vfhigh", 2, totalGpossub22Counts(cc[0], cc[1], 0x100, 0x200, 0))
 		}
 	}
-	add("22-3000x0-vf0", 2, totalGpossub22Counts(3000, 0, 0, 0, 0))
-	add("22-1x3000-vf0", 2, totalGpossub22Counts(1, 3000, 0, 0, 0))
+	add("22-2000x0-vf0", 2, totalGpossub22Counts(2000, 0, 0, 0, 0))
+	add("22-1x2000-vf0", 2, totalGpossub22Counts(1, 2000, 0, 0, 0))
+	if !thorough {
+		add("22-20000x0-heavy", 2, totalGpossub22Counts(20000, 0, 4, 1, 0)) // the one heavy line of the quick tier
+	}
 	add("22-50x60-vf0", 2, totalGpossub22Counts(50, 60, 0, 0, 0))
 	add("22-short-header", 2, W(2, 16, 4, 1, 20, 20, 1))
 	add("22-bad-cd2", 2, cat(W(2, 16, 0, 0, 24, 16, 1, 1), W(1, 2, 3, 4), W(1, 3, 2, 1, 1)))
@@ -689,7 +730,23 @@ func totalGpossubGen(c *Ctx, r *Rng, seeds []totalSeed) {
 		c.Stat("tmgpossub:"+fn+":gen", gen)
 		return true
 	}
+	heavyLeft := 1 // quick tier: one line of size <= 20000 (about 4 s in the driver)
+	if c.Tier == "thorough" {
+		heavyLeft = 2 // thorough tier: two lines of any size (40 s each for 65535 rows)
+	}
 	read := func(gen string, b []byte, pos, tp int, force bool) bool {
+		if h := totalGpossubHeavy(b, pos, tp); h > 3000 {
+			if heavyLeft == 0 || (c.Tier != "thorough" && h > 20000) {
+				c.Stat("tmgpossub:read:skipped", "heavy-for-the-model")
+				return false
+			}
+			if !emit("read", gen, b, pos, " type="+strconv.Itoa(tp), force) {
+				return false
+			}
+			heavyLeft--
+			c.Stat("tmgpossub:read:heavy", strconv.Itoa(h))
+			return true
+		}
 		return emit("read", gen, b, pos, " type="+strconv.Itoa(tp), force)
 	}
 	anch := func(gen string, b []byte, pos int, force bool) bool { return emit("anchor", gen, b, pos, "", force) }
@@ -702,7 +759,7 @@ func totalGpossubGen(c *Ctx, r *Rng, seeds []totalSeed) {
 	}
 
 	// ---- 1. structured inputs (always), at pos 0 and behind a junk prefix
-	tabs := totalGpossubStructured(r)
+	tabs := totalGpossubStructured(r, c.Tier == "thorough")
 	for _, t := range tabs {
 		read("structured", t.b, 0, t.tp, true)
 		if len(t.b) < 600 {
